@@ -4,6 +4,17 @@ import json, os
 ROOT = os.path.dirname(os.path.dirname(os.path.abspath(__file__)))
 
 CLAIMED = {
+ "C03": dict(
+   text="Coq theorems, for every string / char / byte string (NUL excluded exactly on Postgres and SQLite) and whatever text "
+        "follows: the engine's string lexer (MySQL backslash escapes, Postgres '..'/E'..' incl. octal/hex/unicode escapes, "
+        "SQLite quote doubling; x'..' and bytea hex) applied to the model's literal consumes exactly the literal and decodes "
+        "exactly the value (C03_string/char/bytes_literal_roundtrip, MySQL COMMENT and ENUM labels). The literal writers "
+        "(coq/Model/Literal.v, LitPos.v) are hand-written from the code and tied byte-exactly to /repo at every inlining "
+        "position; the extracted engine lexers additionally decode the implementation's own output on every case.",
+   note="Trusted: Coq kernel; the engine lexers in coq/Spec/EngLex.v (written from the MySQL/Postgres/SQLite manuals: default "
+        "sql_mode, standard_conforming_strings=on, utf8 connection); extraction, driver, harness, generators. Opaque formatters "
+        "(dates, decimals, uuid, json text) are not modelled here. Print Assumptions: closed under the global context.",
+   technique="Coq proof (induction over strings against engine lexer automata) + differential correspondence + decode of implementation output", ref="§6 C03"),
  "C16": dict(
    text="Coq theorems over every input string and every alphabetic-classification function: tokenize terminates (fuel "
         "length+1 is never exhausted), concatenating the tokens reproduces the input, tokens are non-empty "
